@@ -257,7 +257,9 @@ def classify_action(act):
         if m.group(1) not in KINDS:
             raise TranslatorError('unknown token kind ' + m.group(1))
         return ('tok', m.group(1))
-    if norm == '{ }':
+    # an action that is empty apart from C comments does nothing (no string or character literal can hide a comment
+    # opener in it: there is nothing else in the braces)
+    if re.fullmatch(r'\{(\s|/\*.*?\*/)*\}', act.strip(), flags=re.DOTALL):
         return ('skip',)
     want = ("{ for ( ; ; ) { int c; while ( (c = input()) != '*' && c != EOF ) ; /* eat up text of comment */ if ( c == '*' ) "
             "{ while ( (c = input()) == '*' ) ; if ( c == '/' ) break; /* found the end */ } if ( c == EOF ) { exit(STOP); } } }")
